@@ -1,122 +1,467 @@
 /-
-  C03 — schema invariant of a typed `pg.List` (model: PgModel/SymTyped.lean on top of the C04
-  value-spec model; idempotence of `apply` from PgProofs/Typing.lean).
+  C03 — schema invariant of typed `pg.List`, `pg.Dict`, `pg.Object` (model: PgModel/SymTyped.lean on
+  top of the C04 value-spec model; lemmas: PgProofs/SymTyped.lean).  The model mirrors /repo with
+  fixes/C03-F08.patch, C03-F60.patch and C03-F61.patch applied.
+
+  The theorems are parametric in the element / field specs and assume only that `apply` is
+  idempotent on them (`Idem`, the C04 theorem; `idem_of_frag` discharges it for the C04 fragment).
 -/
-import PgModel.SymTyped
-import PgProofs.Typing
+import PgProofs.SymTyped
+import PgGen.C03Tables
 namespace Pg.C03
 open Pg.Typing
 
 def envT : Env := ⟨fun a b => a == b, fun _ _ => true⟩
 def F0 : Flags := ⟨false, .missing, false⟩
 
-/-- A single-value mutator (everything except the batch `extend`). -/
-def Op.single : Op → Bool
-  | .extend _ => false
-  | _ => true
+/-! ## Typed list -/
 
-/-- A rejected write is not stored: whenever a single-value mutator raises (type, value, key or
-index error) the list is exactly what it was — for every element spec, list and argument. -/
-theorem C03_reject_unchanged (env : Env) (l l' : TList) (op : Op) (e : E) (hs : op.single = true)
-    (h : step env l op = (l', some e)) : l' = l := by
+/-- Construction yields a conforming list (`pg.List(items, value_spec=List(elem, mn, mx))`). -/
+theorem C03_list_construct (env : Env) (elem : Spec) (mn : Nat) (mx : Option Nat) (items : List Val)
+    (l : TList) (hI : Idem env false elem) (h : construct env elem mn mx items = .ok l) : Conforms env l := by
+  unfold construct at h
+  cases ha : apply env (.list elem mn mx ⟨false, .missing, false⟩) false (.list items) with
+  | error e => simp [ha] at h
+  | ok r =>
+    simp only [ha] at h
+    cases r with
+    | list ys =>
+      simp only [Except.ok.injEq] at h
+      subst h
+      simp only [apply, gate, Val.isMissing, Val.isNone, Bool.false_eq_true, if_false, bind, Except.bind,
+        typeCheck, instOf, Val.ty, Ty.sub, List.any_cons, List.any_nil, Bool.or_false, beq_self_eq_true, if_true] at ha
+      cases hm : items.mapM (fun x => apply env elem false x) with
+      | error e => simp [hm] at ha
+      | ok zs =>
+        simp only [hm] at ha
+        cases hsz : sizeOk zs.length mn mx <;> simp [hsz] at ha
+        subst ha
+        refine ⟨?_, hsz⟩
+        intro x hx
+        have hmi := mapM_idem (fun x => apply env elem false x) items zs (fun a _ b hab => hI a b hab) hm
+        -- every member of a list that `mapM` maps to itself is a fixed point
+        clear hm hsz
+        induction zs with
+        | nil => cases hx
+        | cons z zs ih =>
+          rw [List.mapM_cons] at hmi
+          cases hz : apply env elem false z with
+          | error e => simp [hz, bind, Except.bind] at hmi
+          | ok z' =>
+            cases hzs : zs.mapM (fun x => apply env elem false x) with
+            | error e => simp [hz, hzs, bind, Except.bind] at hmi
+            | ok zs' =>
+              simp [hz, hzs, bind, Except.bind, pure, Except.pure] at hmi
+              obtain ⟨h1, h2⟩ := hmi
+              subst h1; subst h2
+              simp only [List.mem_cons] at hx
+              rcases hx with hx | hx
+              · subst hx; exact hz
+              · exact ih hx hzs
+    | _ => simp at h
+
+/-- EVERY modelled list mutator preserves the invariant, whether the call succeeds or fails
+(a failed batch — slice assignment, extend, `+=`, `*=`, rebind — ends in the state after its
+successful prefix, which conforms as well).  15 write paths, any element spec with idempotent
+`apply`, every list, every argument. -/
+theorem C03_list_preserve' (env : Env) (l : TList) (op : ListOp) (hI : Idem env false l.elem)
+    (hc : Conforms env l) :
+    Conforms env (listStep env l op).1 ∧ (listStep env l op).1.elem = l.elem := by
   cases op with
-  | extend vs => simp [Op.single] at hs
   | append v =>
-    simp only [step] at h
-    split at h
-    · injection h with h1 _; exact h1.symm
-    · split at h
-      · injection h with h1 _; exact h1.symm
-      · injection h with _ h2; cases h2
+    simp only [listStep]
+    split
+    · exact ⟨hc, rfl⟩
+    · exact listPrim_preserves env l hI _ _ v hc
   | insert i v =>
-    simp only [step] at h
-    split at h
-    · injection h with h1 _; exact h1.symm
-    · split at h
-      · injection h with h1 _; exact h1.symm
-      · injection h with _ h2; cases h2
+    simp only [listStep]
+    split
+    · exact ⟨hc, rfl⟩
+    · exact listPrim_preserves env l hI _ _ v hc
   | setitem i v =>
-    simp only [step] at h
-    split at h
-    · injection h with h1 _; exact h1.symm
-    · split at h
-      · injection h with h1 _; exact h1.symm
-      · injection h with _ h2; cases h2
-  | delitem i =>
-    simp only [step] at h
-    split at h
-    · injection h with h1 _; exact h1.symm
-    · injection h with _ h2; cases h2
-  | pop i =>
-    simp only [step] at h
-    split at h
-    · injection h with h1 _; exact h1.symm
-    · injection h with _ h2; cases h2
-  | remove v =>
-    simp only [step] at h
-    split at h
-    · injection h with h1 _; exact h1.symm
-    · split at h
-      · injection h with h1 _; exact h1.symm
-      · injection h with _ h2; cases h2
-  | clear =>
-    simp only [step] at h
-    split at h
-    · injection h with h1 _; exact h1.symm
-    · injection h with _ h2; cases h2
-
-/-- `append` preserves the invariant, successful or failed, for every element spec of the C04
-fragment (uses idempotence of `apply`: the stored value is the *applied* value). -/
-theorem C03_append_preserves (env : Env) (l : TList) (v : Val) (hf : frag l.elem = true)
-    (hc : Conforms env l) : Conforms env (step env l (.append v)).1 := by
-  simp only [step]
-  split
-  · exact hc
-  · rename_i hmax
-    cases hfz : formalize env l v with
-    | error e => simp only []; exact hc
-    | ok v' =>
+    simp only [listStep]
+    split
+    · exact ⟨hc, rfl⟩
+    · exact listPrim_preserves env l hI _ _ v hc
+  | setslice start stop step vs =>
+    simp only [listStep]
+    cases hm : vs.mapM (formalize env l) with
+    | error e => exact ⟨hc, rfl⟩
+    | ok reps =>
       simp only []
-      unfold formalize at hfz
-      cases ha : apply env l.elem false v with
-      | error e => simp [ha] at hfz
+      split
+      · exact primLoop_preserves env _ l _ _ hI hc
+      · split
+        · exact ⟨hc, rfl⟩
+        · split
+          · exact primLoop_preserves env _ l _ _ hI hc
+          · exact primLoop_preserves env _ l _ _ hI hc
+  | delitem i =>
+    simp only [listStep]
+    cases hn : normIndex l.items.length i with
+    | none => exact ⟨hc, rfl⟩
+    | some k =>
+      simp only []
+      cases hb : belowMin l 1
+      · exact ⟨erase_conforms env l k (normIndex_lt _ _ _ hn) hc hb, rfl⟩
+      · exact ⟨hc, rfl⟩
+  | pop i =>
+    simp only [listStep]
+    cases hn : normIndex l.items.length i with
+    | none => exact ⟨hc, rfl⟩
+    | some k =>
+      simp only []
+      cases hb : belowMin l 1
+      · exact ⟨erase_conforms env l k (normIndex_lt _ _ _ hn) hc hb, rfl⟩
+      · exact ⟨hc, rfl⟩
+  | remove v =>
+    simp only [listStep]
+    cases hn : findEq v l.items with
+    | none => exact ⟨hc, rfl⟩
+    | some k =>
+      simp only []
+      cases hb : belowMin l 1
+      · exact ⟨erase_conforms env l k (findEq_lt _ _ _ hn) hc hb, rfl⟩
+      · exact ⟨hc, rfl⟩
+  | delslice start stop step =>
+    simp only [listStep]
+    split
+    · exact ⟨hc, rfl⟩
+    · rename_i hb
+      obtain ⟨h1, h2, h3⟩ := eraseIdxs_facts l.items
+        (rangeIdx (sliceAdjust l.items.length start stop step).1 step
+          (rangeLen (sliceAdjust l.items.length start stop step).1 (sliceAdjust l.items.length start stop step).2 step))
+      refine ⟨⟨fun x hx => hc.1 x (h1 x hx), ?_⟩, rfl⟩
+      simp only [belowMin, decide_eq_true_eq, Nat.not_lt] at hb
+      simp only []
+      exact sizeOk_shrink _ _ _ _ hc.2 (by omega) h2
+  | extend vs =>
+    simp only [listStep]
+    split
+    · exact ⟨hc, rfl⟩
+    · exact extendLoop_preserves env vs l hI hc
+  | imul n =>
+    simp only [listStep]
+    split
+    · split
+      · exact ⟨hc, rfl⟩
+      · rename_i hmn
+        refine ⟨⟨(by intro x hx; cases hx), ?_⟩, rfl⟩
+        have := hc.2
+        unfold sizeOk at this ⊢
+        cases l.mx <;> simp at this ⊢ <;> omega
+    · split
+      · exact ⟨hc, rfl⟩
+      · exact extendLoop_preserves env _ l hI hc
+  | clear =>
+    simp only [listStep]
+    split
+    · exact ⟨hc, rfl⟩
+    · rename_i hmn
+      refine ⟨⟨(by intro x hx; cases hx), ?_⟩, rfl⟩
+      have := hc.2
+      unfold sizeOk at this ⊢
+      cases l.mx <;> simp at this ⊢ <;> omega
+  | sort =>
+    simp only [listStep]
+    split
+    · obtain ⟨h1, h2⟩ := sortVals_facts l.items
+      exact ⟨⟨fun x hx => hc.1 x ((h1 x).1 hx), by simp only [h2]; exact hc.2⟩, rfl⟩
+    · exact ⟨hc, rfl⟩
+  | reverse =>
+    simp only [listStep]
+    exact ⟨⟨fun x hx => hc.1 x (List.mem_reverse.1 hx), by simp only [List.length_reverse]; exact hc.2⟩, by first | rfl | trivial⟩
+  | rebind kvs =>
+    simp only [listStep]
+    exact primAt_preserves env _ l hI hc
+
+theorem C03_list_preserve (env : Env) (l : TList) (op : ListOp) (hI : Idem env false l.elem)
+    (hc : Conforms env l) : Conforms env (listStep env l op).1 :=
+  (C03_list_preserve' env l op hI hc).1
+
+/-- A rejected single-value list write (append / insert / item assignment / item deletion / pop /
+remove / clear / sort) raises and stores nothing: the list is exactly what it was. -/
+def ListOp.single : ListOp → Bool
+  | .append _ | .insert _ _ | .setitem _ _ | .delitem _ | .delslice _ _ _ | .pop _ | .remove _ | .clear | .sort
+  | .reverse => true
+  | _ => false
+
+theorem C03_list_reject_unchanged (env : Env) (l : TList) (op : ListOp) (e : E) (hs : op.single = true)
+    (h : (listStep env l op).2 = some e) : (listStep env l op).1 = l := by
+  cases op <;> simp only [ListOp.single] at hs <;> simp only [listStep] at h ⊢
+  all_goals (try cases hs)
+  · split
+    · rfl
+    · rename_i hm; simp only [hm] at h; exact listPrim_reject env l _ _ _ e h
+  · split
+    · rfl
+    · rename_i hm; simp only [hm] at h; exact listPrim_reject env l _ _ _ e h
+  · split
+    · rfl
+    · rename_i k hn; simp only [hn] at h; exact listPrim_reject env l _ _ _ e h
+  · cases hn : normIndex l.items.length _ with
+    | none => rfl
+    | some k => simp only [hn] at h ⊢; cases hb : belowMin l 1 <;> simp [hb] at h ⊢
+  · split
+    · rfl
+    · rename_i hb; simp [hb] at h
+  · cases hn : normIndex l.items.length _ with
+    | none => rfl
+    | some k => simp only [hn] at h ⊢; cases hb : belowMin l 1 <;> simp [hb] at h ⊢
+  · cases hn : findEq _ l.items with
+    | none => rfl
+    | some k => simp only [hn] at h ⊢; cases hb : belowMin l 1 <;> simp [hb] at h ⊢
+  · split
+    · rfl
+    · rename_i hb; simp [hb] at h
+  · split
+    · rename_i hb; simp [hb] at h
+    · rfl
+  · simp at h
+
+/-- The invariant holds along every history of list mutations. -/
+def runList (env : Env) (l : TList) : List ListOp → TList
+  | [] => l
+  | op :: ops => runList env (listStep env l op).1 ops
+
+/-- … for all operation lists (induction over the history). -/
+theorem C03_list_history (env : Env) (ops : List ListOp) : ∀ (l : TList), Idem env false l.elem →
+    Conforms env l → Conforms env (runList env l ops) := by
+  induction ops with
+  | nil => intro l _ hc; exact hc
+  | cons op ops ih =>
+    intro l hI hc
+    obtain ⟨h1, h2⟩ := C03_list_preserve' env l op hI hc
+    exact ih _ (by rw [h2]; exact hI) h1
+
+/-- F08 is repaired: `del l[0]` on a list of length `min_size` is refused. -/
+example : (listStep envT ⟨.int none none F0, 2, none, [.int 1, .int 2]⟩ (.delitem 0)).2 = some .value := by rfl
+example : (listStep envT ⟨.int none none F0, 0, some 2, [.int 1, .int 2]⟩ (.rebind [(0, true, .int 9)])).2 = some .value := by rfl
+
+
+/-! ## Typed dict / object -/
+
+/-- The trust placed in an already typed container argument: it conforms to the spec it is bound
+to, and the destination's compatibility verdict is sound for it.  (For plain values nothing is
+assumed.)  This is where the C04 compatibility findings (F09, F09b, F40–F43) reach C03: see
+`C03_dict_typed_counterexample`. -/
+def ArgTrusted (env : Env) (fields : List Field) (p : Bool) (k : String) : Arg → Prop
+  | .plain _ => True
+  | .typed src sp v => ∀ f, getField env fields k = some f →
+      isCompatible env f.value src = true → sp = p → apply env f.value p v = .ok v
+
+theorem applyArg_fixed (env : Env) (fields : List Field) (p : Bool) (pb : Val → Bool) (k : String)
+    (f : Field) (hf : getField env fields k = some f) (hI : Idem env p f.value) (a : Arg)
+    (ht : ArgTrusted env fields p k a) (w : Val) (h : applyArg env f.value p pb a = .ok w) :
+    apply env f.value p w = .ok w := by
+  cases a with
+  | plain v => exact hI v w h
+  | typed src sp v =>
+    simp only [applyArg] at h
+    split at h
+    · exact hI v w h
+    · split at h
+      · cases h
+      · rename_i hcomp
+        split at h
+        · rename_i hsp
+          injection h with h; subst h
+          exact ht f hf (by simpa using hcomp) (by simpa using hsp)
+        · split at h
+          · cases h
+          · exact hI v w h
+
+/-- The dict write primitive (`d[k] = v`, `__setattr__`, one entry of update / rebind, `del`)
+preserves the invariant, successful or failed — any schema whose field specs have idempotent
+`apply`, plain or trusted typed arguments, either `allow_partial` mode. -/
+theorem C03_dict_prim_preserve (env : Env) (p : Bool) (pb : Val → Bool) (d : TDict) (k : String) (a : Arg)
+    (hI : ∀ f ∈ d.fields, Idem env p f.value) (ht : ArgTrusted env d.fields p k a)
+    (hc : ConformsD env p d) :
+    ConformsD env p (dictPrim env p pb d k a).1 ∧ (dictPrim env p pb d k a).1.fields = d.fields := by
+  unfold dictPrim
+  cases hg : getField env d.fields k with
+  | none => exact ⟨hc, rfl⟩
+  | some f =>
+    obtain ⟨ks, spec⟩ := f
+    have hmem : Field.mk ks spec ∈ d.fields := by
+      unfold getField at hg
+      cases h1 : d.fields.find? (fun f => f.key == KeySpec.const k) with
+      | some g => simp only [h1] at hg; injection hg with hg; subst hg; exact List.mem_of_find?_eq_some h1
+      | none => simp only [h1] at hg; exact List.mem_of_find?_eq_some hg
+    simp only []
+    split
+    · rename_i hdel
+      simp only [Bool.and_eq_true, Bool.not_eq_true'] at hdel
+      refine ⟨⟨?_, ?_⟩, rfl⟩
+      · intro kv hkv
+        simp only [eraseKey, List.mem_filter] at hkv
+        exact hc.1 kv hkv.1
+      · intro k' hk'
+        have hne : k' ≠ k := by
+          intro heq; subst heq
+          exact not_const_of_getField env d.fields k' _ hg (by simpa [Field.key] using hdel.2) hk'
+        exact lookup_eraseKey_isSome _ _ _ hne (hc.2 k' hk')
+    · cases hap : applyArg env spec p pb (if a.val.isMissing = true then Arg.plain spec.flags.default else a) with
+      | error e => exact ⟨hc, rfl⟩
       | ok w =>
-        simp [ha] at hfz; subst hfz
-        constructor
-        · intro x hx
-          simp only [List.mem_append, List.mem_singleton] at hx
-          rcases hx with hx | hx
-          · exact hc.1 x hx
-          · subst hx; exact apply_idem_frag env l.elem hf false v _ ha
-        · have h2 := hc.2
-          unfold atMax at hmax
-          unfold sizeOk at h2 ⊢
-          simp only [List.length_append, List.length_singleton]
-          cases hm : l.mx with
-          | none => simp [hm] at h2 ⊢; omega
-          | some m => simp [hm] at h2 hmax ⊢; omega
+        refine ⟨⟨?_, ?_⟩, rfl⟩
+        · intro kv hkv
+          rcases mem_setKey _ _ _ _ hkv with h | h
+          · exact hc.1 kv h
+          · subst h
+            refine ⟨.mk ks spec, hg, ?_⟩
+            refine applyArg_fixed env d.fields p pb k (.mk ks spec) hg (hI _ hmem) _ ?_ w hap
+            split
+            · trivial
+            · exact ht
+        · intro k' hk'
+          exact lookup_setKey_isSome _ _ _ _ (hc.2 k' hk')
 
-/-- FULL STATEMENT: every mutating call preserves the invariant. -/
-def C03_preserve_Full : Prop :=
-  ∀ (env : Env) (l : TList) (op : Op), Conforms env l → Conforms env (step env l op).1
+/-- A rejected dict write stores nothing. -/
+theorem C03_dict_prim_reject (env : Env) (p : Bool) (pb : Val → Bool) (d : TDict) (k : String) (a : Arg) (e : E)
+    (h : (dictPrim env p pb d k a).2 = some e) : (dictPrim env p pb d k a).1 = d := by
+  unfold dictPrim at h ⊢
+  cases hg : getField env d.fields k with
+  | none => rfl
+  | some f =>
+    obtain ⟨ks, spec⟩ := f
+    simp only [hg] at h ⊢
+    split
+    · rename_i hdel; simp [hdel] at h
+    · rename_i hdel
+      simp only [hdel] at h
+      cases hap : applyArg env spec p pb (if a.val.isMissing = true then Arg.plain spec.flags.default else a) with
+      | error e' => rfl
+      | ok w => simp [hap] at h
 
-/-- F08 (replayed on the real code): `del l[0]` on a list bound to `List(Int(), min_size=2)` of
-length 2 succeeds and leaves a list of length 1. -/
-theorem C03_preserve_counterexample : ¬ C03_preserve_Full := by
+/-- Batched writes (`update`, `|=`, `rebind`): the invariant holds after the batch, complete or
+stopped at its first rejected entry (the state is then the one after the successful prefix). -/
+theorem C03_dict_batch_preserve (env : Env) (p : Bool) (pb : Val → Bool) (kvs : List (String × Arg)) :
+    ∀ (d : TDict), (∀ f ∈ d.fields, Idem env p f.value) →
+      (∀ kv ∈ kvs, ArgTrusted env d.fields p kv.1 kv.2) → ConformsD env p d →
+      ConformsD env p (dictBatch env p pb d kvs).1 ∧ (dictBatch env p pb d kvs).1.fields = d.fields := by
+  induction kvs with
+  | nil => intro d _ _ hc; exact ⟨hc, rfl⟩
+  | cons kv kvs ih =>
+    intro d hI ht hc
+    obtain ⟨k, a⟩ := kv
+    have h1 := C03_dict_prim_preserve env p pb d k a hI (ht (k, a) List.mem_cons_self) hc
+    simp only [dictBatch]
+    cases hp : dictPrim env p pb d k a with
+    | mk d' e =>
+      rw [hp] at h1
+      cases e with
+      | some e => exact h1
+      | none =>
+        simp only []
+        have := ih d' (by rw [h1.2]; exact hI)
+          (fun kv hkv => by rw [h1.2]; exact ht kv (List.mem_cons_of_mem _ hkv)) h1.1
+        exact ⟨this.1, by rw [this.2, h1.2]⟩
+
+/-- What is *assumed* about `Schema.apply` on the empty dict (used by `clear` only; modelled and
+checked by correspondence, not proved): its result conforms. -/
+def ClearConforms (env : Env) (p : Bool) (fields : List Field) : Prop :=
+  ∀ kvs, schemaApply env fields p [] = .ok kvs → ConformsD env p ⟨fields, kvs⟩
+
+def DictOp.trusted (env : Env) (fields : List Field) (p : Bool) : DictOp → Prop
+  | .setitem k a => ArgTrusted env fields p k a
+  | .setdefault k a => ArgTrusted env fields p k a
+  | .update kvs => ∀ kv ∈ kvs, ArgTrusted env fields p kv.1 kv.2
+  | _ => True
+
+/-- EVERY modelled dict / object mutator preserves the invariant, successful or failed. -/
+theorem C03_dict_preserve (env : Env) (p : Bool) (pb : Val → Bool) (d : TDict) (op : DictOp)
+    (hI : ∀ f ∈ d.fields, Idem env p f.value) (ht : op.trusted env d.fields p)
+    (hclear : ClearConforms env p d.fields) (hc : ConformsD env p d) :
+    ConformsD env p (dictStep env p pb d op).1 := by
+  cases op with
+  | setitem k a => exact (C03_dict_prim_preserve env p pb d k a hI ht hc).1
+  | delitem k =>
+    simp only [dictStep]
+    split
+    · exact hc
+    · exact (C03_dict_prim_preserve env p pb d k (.plain .missing) hI trivial hc).1
+  | setdefault k a =>
+    simp only [dictStep]
+    split
+    · split
+      · exact (C03_dict_prim_preserve env p pb d k a hI ht hc).1
+      · exact hc
+    · exact (C03_dict_prim_preserve env p pb d k a hI ht hc).1
+  | update kvs => exact (C03_dict_batch_preserve env p pb kvs d hI ht hc).1
+  | clear =>
+    simp only [dictStep]
+    cases hs : schemaApply env d.fields p [] with
+    | ok kvs => exact hclear kvs hs
+    | error e => exact hc
+  | popitem => exact hc
+
+/-- FULL STATEMENT without the trust hypothesis on typed arguments. -/
+def C03_dict_preserve_Full : Prop :=
+  ∀ (env : Env) (p : Bool) (pb : Val → Bool) (d : TDict) (k : String) (a : Arg),
+    (∀ f ∈ d.fields, Idem env p f.value) → ConformsD env p d → ConformsD env p (dictPrim env p pb d k a).1
+
+/-- F63 (replayed on the real code): a `pg.List([], value_spec=List(Int()))` assigned to a field
+declared `List(Int(), min_size=2)` is stored without validation, because
+`List(min_size=2).is_compatible(List())` is True (C04 F09b). -/
+theorem C03_dict_typed_counterexample : ¬ C03_dict_preserve_Full := by
   intro h
-  have hc : Conforms envT ⟨.int none none F0, 2, none, [.int 1, .int 2]⟩ := by
-    refine ⟨?_, by rfl⟩
-    intro x hx
-    simp only [List.mem_cons, List.mem_nil_iff, or_false] at hx
-    rcases hx with hx | hx <;> subst hx <;> rfl
-  have := (h envT _ (.delitem 0) hc).2
-  revert this
-  decide
+  let fields := [Field.mk (.const "w") (.list (.int none none F0) 2 none F0)]
+  have hI : ∀ f ∈ fields, Idem envT false f.value := by
+    intro f hf
+    simp only [fields, List.mem_singleton] at hf
+    subst hf
+    exact idem_of_frag envT false _ (by rfl)
+  have hc : ConformsD envT false ⟨fields, [("w", .list [.int 1, .int 2])]⟩ := by
+    refine ⟨?_, ?_⟩
+    · intro kv hkv
+      simp only [List.mem_singleton] at hkv
+      subst hkv
+      exact ⟨_, rfl, rfl⟩
+    · intro k hk
+      simp only [fields, constKeys, List.mem_singleton] at hk
+      subst hk; rfl
+  have hres : (dictPrim envT false (fun _ => false) ⟨fields, [("w", .list [.int 1, .int 2])]⟩ "w"
+      (.typed (.list (.int none none F0) 0 none F0) false (.list []))).1.kvs = [("w", .list [])] := by rfl
+  have := (h envT false (fun _ => false) ⟨fields, [("w", .list [.int 1, .int 2])]⟩ "w"
+    (.typed (.list (.int none none F0) 0 none F0) false (.list [])) hI hc).1 ("w", .list []) (by
+      rw [hres]; exact List.mem_singleton.2 rfl)
+  obtain ⟨f, hf, hap⟩ := this
+  simp only [getField, fields, List.find?_cons, Field.key, beq_self_eq_true] at hf
+  injection hf with hf
+  subst hf
+  have e : apply envT (Field.mk (KeySpec.const "w") ((Spec.int none none F0).list 2 none F0)).value false
+      ("w", Val.list []).snd = .error .value := by rfl
+  rw [e] at hap
+  cases hap
 
-/-! Non-vacuity. -/
-example : Conforms envT ⟨.int (some 0) (some 5) F0, 1, some 3, [.int 1]⟩ :=
-  ⟨by intro x hx; simp at hx; subst hx; rfl, by rfl⟩
-example : (step envT ⟨.int (some 0) (some 5) F0, 1, some 3, [.int 1]⟩ (.append (.int 9))).2 = some .value := by rfl
-example : frag (.int (some 0) (some 5) F0) = true := by rfl
+/-- Non-vacuity. -/
+example : ConformsD envT false ⟨[Field.mk (.const "x") (.int (some 0) none F0)], [("x", .int 1)]⟩ :=
+  ⟨by intro kv hkv; simp at hkv; subst hkv; exact ⟨_, rfl, rfl⟩,
+   by intro k hk; simp [constKeys] at hk; subst hk; rfl⟩
+example : (dictPrim envT false (fun _ => false) ⟨[Field.mk (.const "x") (.int (some 0) none F0)], [("x", .int 1)]⟩ "x"
+    (.plain (.int (-1)))).2 = some .value := by rfl
+example : (dictPrim envT false (fun _ => false) ⟨[Field.mk (.const "x") (.int (some 0) none F0)], [("x", .int 1)]⟩ "q"
+    (.plain (.int 1))).2 = some .key := by rfl
+
+/-! ## Generated obligations (T-GUARD facts of the current source, lean/PgGen/C03Tables.lean)
+
+The model routes every list growth through `listPrim` (which checks `max_size` and formalizes) and
+every shrink through a `min_size` check; every dict write through `dictPrim`.  These obligations
+tie those modelling decisions to the source text: they stop compiling, naming the entry point, when
+a mutator loses its size check or bypasses the write primitive. -/
+
+theorem C03_table_list_prim :
+    Gen.listPrimChecksMax = true ∧ Gen.listPrimFormalizes = true ∧ Gen.listFormalizeApplies = true := by decide
+
+/-- Every growing entry point stores only what the write primitive returned. -/
+theorem C03_table_list_growers : ∀ m ∈ Gen.listGrowers, m.2.1 = true ∧ m.2.2 = false := by decide
+
+/-- Every shrinking entry point consults `min_size`. -/
+theorem C03_table_list_shrinkers : ∀ m ∈ Gen.listShrinkers, m.2 = true := by decide
+
+theorem C03_table_dict :
+    Gen.dictPrimFormalizes = true ∧ Gen.dictFormalizeApplies = true ∧
+    ∀ m ∈ Gen.dictWriters, m.2.1 = true ∧ m.2.2 = false := by decide
 
 end Pg.C03
